@@ -144,6 +144,19 @@ def _impl(tier, seed, search):
             if ok:
                 L.close('exp(ad S)=Ad(exp S)', scipy.linalg.expm(r[0]), r[1], 1e-7, max(1.0, float(np.max(np.abs(r[1]))), float(np.max(np.abs(Sd)))), dict(S=Sd), sig='exp(ad S)=Ad(exp S):degenerate')
                 L.close('Twist3.Ad=SE3.Ad', r[1], r[2], 1e-12, max(1.0, float(np.max(np.abs(r[2])))), dict(S=Sd), sig='exp(ad S)=Ad(exp S):degenerate')
+        # along the one-parameter subgroup at theta = 0 and theta = -theta: S.exp(0) is the identity, Ad(S.exp(a)) Ad(S.exp(-a)) = I
+        if i % 6 == 0:
+            Su_ = np.r_[g.normal(size=3), inputs.unit_axis(g)]; au_ = float(g.uniform(0.2, 2.0))
+            ok, r = L.noraise('Twist3.exp(0).Ad', lambda: (Twist3(Su_).exp(0).Ad(), Twist3(Su_).exp(0.0).A, Twist3(Su_).exp(au_).Ad() @ Twist3(Su_).exp(-au_).Ad(), scipy.linalg.expm(0 * Twist3(Su_).ad())), dict(S=Su_), 'Twist3.exp(0) / exp(a) exp(-a)')
+            if ok:
+                L.close('Ad(S.exp(0))=I', r[0], np.eye(6), 1e-9, 1.0, dict(S=Su_), what='Ad(S.exp(0)) is not the identity (= exp(0 * ad S))', sig='exp(ad S)=Ad(exp S):theta=0'); L.close('S.exp(0)=I', r[1], np.eye(4), 1e-9, 1.0, dict(S=Su_), sig='exp(ad S)=Ad(exp S):theta=0')
+                L.close('Ad(S.exp(a))Ad(S.exp(-a))=I', r[2], np.eye(6), 1e-7, max(1.0, float(np.max(np.abs(Su_[:3])))) ** 2, dict(S=Su_, a=au_), sig='exp(ad S)=Ad(exp S):theta=0')
+            # the inverse of each value of a multi-valued pose has the inverse adjoint
+            Tm1_, Tm2_ = inputs.se3(g, 2), inputs.se3(g, 2)
+            ok, r = L.noraise('Ad(inv) on a sequence', lambda: [np.asarray(x_, float) for x_ in SE3([Tm1_, Tm2_], check=False).inv().data], dict(T1=Tm1_, T2=Tm2_), 'SE3([T1, T2]).inv()')
+            if ok and len(r) == 2:
+                for k_, Tk_ in enumerate((Tm1_, Tm2_)):
+                    L.close('Ad(T^-1)Ad(T)=I (sequence)', b.adjoint(r[k_]) @ b.adjoint(Tk_), np.eye(6), T9, max(1.0, geom.tmag(Tk_)) ** 2, dict(T=Tk_, k=k_), what='the adjoint of element k of SE3([...]).inv() is not the inverse of the adjoint of element k', sig='Ad(T^-1):sequence')
         # velocity Jacobian
         R1 = T1[:3, :3]; Z = np.zeros((3, 3))
         L.close('tr2jac', b.tr2jac(T1), np.block([[R1.T, Z], [Z, R1.T]]), 1e-12, 1.0, dict(T=T1))
